@@ -13,9 +13,9 @@ import traceback
 import z3
 
 from .vals import *   # noqa
-from .interp import (OutOfReach, PyRaise, Infeasible, PathEnd, FuncRef, ClassRef, Obj, NamedTupleClass, Closure,
+from .interp import (Prod, OutOfReach, PyRaise, Infeasible, PathEnd, FuncRef, ClassRef, Obj, NamedTupleClass, Closure,
                      HostFn, Frame, Ctx, Interp, ExcInst, TDelta, plain, int_term, _Star, Builtin)
-from .world import World, LoopSpec, merge_eval
+from .world import World, LoopSpec, merge_eval, arg_key
 from .ops import SymMapView
 from . import api
 
@@ -55,6 +55,10 @@ def fresh_of_dom(it, dom, name):
     if dom.parts is not None:
         items = [fresh_of_dom(it, p, '%s_%d' % (name, i)) for i, p in enumerate(dom.parts)]
         return tuple(items) if dom.is_tuple else items
+    if 'prod' in dom.kinds:
+        names = [n for n, _ in dom.attrs['parts']]
+        vals = [fresh_of_dom(it, d, '%s_%d' % (name, i)) for i, (_, d) in enumerate(dom.attrs['parts'])]
+        return Prod(names, vals)
     if 'pyobj' in dom.kinds:
         cls = world.function_or_class(dom.cls)
         o = Obj(cls, {})
@@ -98,7 +102,7 @@ def dom_membership(it, dom, v):
     """ Bool term / python bool: v belongs to dom (used for callpre on argument domains) """
     if dom.has_const:
         return True
-    if dom.parts is not None or 'pyobj' in dom.kinds or 'hostfn' in dom.kinds or 'symmap' in dom.kinds:
+    if dom.parts is not None or 'pyobj' in dom.kinds or 'hostfn' in dom.kinds or 'symmap' in dom.kinds or 'prod' in dom.kinds:
         return True
     if isinstance(v, Sym):
         if v.kinds <= dom.kinds:
@@ -185,6 +189,35 @@ class Contract(object):
                 return None
         return None
 
+    OPAQUE_EXC = ['XLError', 'ValueError', 'TypeError', 'ZeroDivisionError', 'OverflowError', 'IndexError', 'KeyError',
+                  'AttributeError', 'AnyException']
+
+    def opaque_apply(self, it, vals):
+        """ the callee's outcome as an uninterpreted (deterministic) function of its arguments: sound for functional
+            contracts, and all a caller needs when it only passes the result on.  K = 0: returns F(args); K = i: raises
+            the i-th class of OPAQUE_EXC (XLError with payload E(args)). """
+        ctx = it.ctx
+        try:
+            ts = [to_val(v) for v in vals]
+        except Unliftable as u:
+            raise OutOfReach('opaque call of %s: %s' % (self.name, u))
+        sorts = [Val] * len(ts)
+        F = z3.Function('F_' + self.name, *(sorts + [Val]))
+        K = z3.Function('K_' + self.name, *(sorts + [z3.IntSort()]))
+        EC = z3.Function('E_' + self.name, *(sorts + [z3.IntSort()]))
+        k = K(*ts)
+        ctx.flags.add('opaque:' + self.name)
+        if ctx.branch(k == 0):
+            return Sym(F(*ts), ALL_KINDS)
+        for i, cls in enumerate(self.OPAQUE_EXC[:-1]):
+            if ctx.branch(k == i + 1):
+                if cls == 'XLError':
+                    code = EC(*ts)
+                    ctx.assume(code >= 0)
+                    raise PyRaise('XLError', mk_err(code))
+                raise PyRaise(cls, ExcInst(cls))
+        raise PyRaise('AnyException', ExcInst('AnyException'))
+
     # -- call by contract (modular: callers never see the body)
     def apply(self, it, fn, args, kwargs):
         ctx = it.ctx
@@ -193,6 +226,13 @@ class Contract(object):
         names = self.param_names(fn)
         vals = [frame.locals[n] for n in names]
         ctx.log.append(('call', self.target, vals))
+        cur = self.world.current
+        if cur is not None and self.name in (cur.decl.get('opaque_callees') or ()) and 'spec' in self.fns:
+            if 'pre' in self.fns:
+                g = merge_eval(it, lambda it2: it2.call(self.fns['pre'], vals), key=('callpre', self.name, arg_key(vals)))
+                ctx.oblige('callpre', 'callpre.%s' % self.name, g)
+                ctx.assume(g)
+            return self.opaque_apply(it, vals)
         # argument domains and precondition are proof obligations of the caller
         for n, v in zip(names, vals):
             d = self.args.get(n)
@@ -201,9 +241,14 @@ class Contract(object):
                 if g is not True:
                     ctx.oblige('callpre', 'callpre.%s.%s' % (self.name, n), g if not isinstance(g, bool) else z3.BoolVal(g))
         if 'pre' in self.fns:
-            g = merge_eval(it, lambda it2: it2.call(self.fns['pre'], vals))
+            g = merge_eval(it, lambda it2: it2.call(self.fns['pre'], vals), key=('callpre', self.name, arg_key(vals)))
             ctx.oblige('callpre', 'callpre.%s' % self.name, g)
             ctx.assume(g)
+        if 'attrs' in self.fns:
+            d = it.call(self.fns['attrs'], vals)
+            for k2, v2 in d.items():
+                vals[0].attrs[k2] = v2
+            return None
         if 'spec' in self.fns:
             return it.call(self.fns['spec'], vals)
         if 'post' in self.fns:
@@ -258,6 +303,25 @@ def outcome_obj(out):
     return Obj(OUTCOME_CLS, {'ret': False, 'value': None, 'exc': pr.cls, 'err': err})
 
 
+def values_equal_term(pa, pb):
+    """ strict equality of two interpreter values as a Bool term; tuples elementwise; type objects by identity """
+    from .interp import TypeRef
+    if isinstance(pa, tuple) and isinstance(pb, tuple) and (any(_has_type(x) for x in pa) or any(_has_type(x) for x in pb)):
+        if len(pa) != len(pb):
+            return z3.BoolVal(False)
+        return z3.And(*[values_equal_term(x, y) for x, y in zip(pa, pb)]) if pa else z3.BoolVal(True)
+    if _has_type(pa) or _has_type(pb):
+        return z3.BoolVal(pa == pb if not isinstance(pa, TypeRef) else pa is pb)
+    return to_val(pa) == to_val(pb)
+
+
+def _has_type(x):
+    from .interp import TypeRef
+    if isinstance(x, TypeRef):
+        return True
+    return isinstance(x, tuple) and len(x) > 0 and all(isinstance(y, TypeRef) for y in x)
+
+
 def outcomes_equal(it, a, b):
     """ goal term for 'body outcome == spec outcome' """
     ka, pa = a
@@ -266,7 +330,7 @@ def outcomes_equal(it, a, b):
         return z3.BoolVal(False)
     if ka == 'ret':
         try:
-            return to_val(pa) == to_val(pb)
+            return values_equal_term(pa, pb)
         except Unliftable as u:
             raise OutOfReach('functional spec on a non-liftable result (%s): use post' % u)
     if pa.cls != pb.cls:
@@ -335,6 +399,8 @@ def value_from_model(model, v):
                 'attrs': {k: value_from_model(model, x) for k, x in v.attrs.items()}}
     if isinstance(v, HostFn):
         return {'__hostfn__': v.name}
+    if isinstance(v, Prod):
+        return {'__prod__': list(v.names), 'vals': [value_from_model(model, x) for x in v.init_vals]}
     if isinstance(v, SymMapView):
         return {'__symmap__': v.name}
     return v
@@ -401,8 +467,20 @@ def verify_contract(world, c, timeout_ms=10000, only_case=None):
                         raise OutOfReach('contract %s declares no domain for parameter %s' % (c.name, n))
                 ctx.inputs = list(zip(names, vals))
                 if 'pre' in c.fns:
-                    if not it.truth(it.call(c.fns['pre'], vals)):
-                        raise Infeasible()
+                    ctx.phase = 'pre'
+                    # merged into one assumption (paths of the precondition are not multiplied with those of the body);
+                    # a precondition path that raises counts as false
+                    if c.decl.get('merge_pre'):
+                        # one merged assumption: the paths of the precondition are not multiplied with those of the body
+                        g = merge_eval(it, lambda it2: it2.call(c.fns['pre'], vals), key=('toppre', c.name, arg_key(vals)))
+                        ctx.assume(g, check=True)
+                    else:
+                        try:
+                            if not it.truth(it.call(c.fns['pre'], vals)):
+                                raise Infeasible()
+                        except PyRaise:
+                            raise Infeasible()     # a precondition that raises does not hold
+                    ctx.phase = 'body'
                 if c.is_lemma:
                     ctx.phase = 'post'
                     ok = it.truth(it.call(c.fns['claim'], vals))
@@ -425,7 +503,8 @@ def verify_contract(world, c, timeout_ms=10000, only_case=None):
                     out = ('ret', v)
                 except PyRaise as pr:
                     out = ('raise', pr)
-                world.current = None
+                if c.decl.get('result_is_p0') and out[0] == 'ret':
+                    out = ('ret', [v for v in vals if isinstance(v, Prod)][0].vals[0])
                 ctx.phase = 'post'
                 if 'spec' in c.fns:
                     try:
@@ -435,10 +514,21 @@ def verify_contract(world, c, timeout_ms=10000, only_case=None):
                         sout = ('raise', pr)
                     goal = outcomes_equal(it, out, sout)
                     ctx.oblige('post', 'post', goal, note='%s vs spec %s' % (describe_outcome(out), describe_outcome(sout)))
+                if 'attrs' in c.fns:
+                    d = it.call(c.fns['attrs'], vals)
+                    if out[0] != 'ret':
+                        ctx.oblige('post', 'post', z3.BoolVal(False), note='constructor raised %s' % out[1].cls)
+                    else:
+                        obj = vals[0]
+                        goal = z3.BoolVal(set(d.keys()) == set(obj.attrs.keys()))
+                        if set(d.keys()) == set(obj.attrs.keys()):
+                            goal = z3.And(*[to_val(obj.attrs[k2]) == to_val(d[k2]) for k2 in d]) if d else z3.BoolVal(True)
+                        ctx.oblige('post', 'post', goal, note='constructor attributes')
                 if 'post' in c.fns:
                     oo = outcome_obj(out)
                     ok = it.truth(it.call(c.fns['post'], vals + [oo]))
                     ctx.oblige('post', 'post', z3.BoolVal(bool(ok)), note=describe_outcome(out))
+                world.current = None
 
             for ctx, status in explore(run, c.max_paths):
                 res.paths += 1
@@ -526,10 +616,11 @@ def load_contracts(world, contract_dir, files=None):
             continue
         path = os.path.join(contract_dir, fn)
         before = len(api.REGISTRY)
-        ns2 = dict(ns)
+        ns2 = ns            # one shared namespace: contract files may refer to each other's contract classes
         with open(path, 'r', encoding='utf-8') as f:
             exec(compile(f.read(), path, 'exec'), ns2)
         m = world.spec_module(path, fn[:-3], fallback=specmod)
+        world.spec_modules.append(m)
         for decl in api.REGISTRY[before:]:
             c = Contract(world, decl, m)
             c.native_ns = ns2
